@@ -1,0 +1,77 @@
+//go:build verif
+
+package logqlmetric
+
+import (
+	"slices"
+	"strconv"
+	"strings"
+
+	"github.com/tdakkota/docker-logql/internal/lokiapi"
+)
+
+// VerifSampleOrder, if set, decides the order of elements that the engine
+// obtained by ranging over a hash map (samples of a step, series of a
+// matrix). It receives the number of elements and returns a permutation of
+// [0, n) that is applied to the elements in a canonical (sorted) order.
+// Set by the deterministic simulation harness only.
+var VerifSampleOrder func(n int) []int
+
+func verifLabelsKey(set lokiapi.LabelSet) string {
+	names := make([]string, 0, len(set))
+	for k := range set {
+		names = append(names, k)
+	}
+	slices.Sort(names)
+	var sb strings.Builder
+	for _, k := range names {
+		sb.WriteString(strconv.Quote(k))
+		sb.WriteByte('=')
+		sb.WriteString(strconv.Quote(set[k]))
+		sb.WriteByte(',')
+	}
+	return sb.String()
+}
+
+func verifPermute[T any](elems []T, keys []string) []T {
+	idx := make([]int, len(elems))
+	for i := range idx {
+		idx[i] = i
+	}
+	slices.SortStableFunc(idx, func(a, b int) int { return strings.Compare(keys[a], keys[b]) })
+	out := make([]T, 0, len(elems))
+	for _, j := range VerifSampleOrder(len(elems)) {
+		out = append(out, elems[idx[j]])
+	}
+	return out
+}
+
+func verifOrderSamples(s []Sample) []Sample {
+	if VerifSampleOrder == nil || len(s) < 2 {
+		return s
+	}
+	keys := make([]string, len(s))
+	for i, e := range s {
+		keys[i] = verifLabelsKey(e.Set.AsLokiAPI()) + strconv.FormatFloat(e.Data, 'g', -1, 64)
+	}
+	return verifPermute(s, keys)
+}
+
+func verifOrderMatrix(m lokiapi.Matrix) lokiapi.Matrix {
+	if VerifSampleOrder == nil || len(m) < 2 {
+		return m
+	}
+	keys := make([]string, len(m))
+	for i, e := range m {
+		var sb strings.Builder
+		sb.WriteString(verifLabelsKey(e.Metric.Value))
+		for _, p := range e.Values {
+			sb.WriteString(strconv.FormatFloat(p.T, 'f', 3, 64))
+			sb.WriteByte('=')
+			sb.WriteString(p.V)
+			sb.WriteByte(';')
+		}
+		keys[i] = sb.String()
+	}
+	return verifPermute(m, keys)
+}
